@@ -340,3 +340,55 @@ func VerifC12ClientRunID() {
 	}
 	c14.script = nil
 }
+
+// VerifC14ReloginConfig: the login loop registers the configuration that is current when a
+// login finally succeeds: a reload during an outage is not lost, however many attempts failed
+// before.
+func VerifC14ReloginConfig() {
+	common := &v1.ClientCommonConfig{}
+	mux := false
+	common.Transport.TCPMux = &mux
+	conn := &c14Conn{}
+	kon := &c14Connector{conn: conn}
+	ctx, cancel := context.WithCancelCause(context.Background())
+	svr := &Service{ctx: ctx, cancel: cancel, common: common, authSetter: &c14Setter{}, clientSpec: &msg.ClientSpec{Type: "ssh-tunnel"},
+		connectorCreator: func(context.Context, *v1.ClientCommonConfig) Connector { return kon }}
+	mk := func(name string) v1.ProxyConfigurer {
+		c := &v1.TCPProxyConfig{}
+		c.Name, c.Type, c.LocalIP, c.LocalPort, c.RemotePort = name, "tcp", "127.0.0.1", 80, 6000
+		return c
+	}
+	svr.proxyCfgs = []v1.ProxyConfigurer{mk("a")}
+	c14.untilFn, c14.untilN, c14.backoffFn, c14.backoffN = nil, 0, nil, 0
+	svr.loopLoginUntilSuccess(10*time.Second, false)
+	zzverif.Assert(c14.backoffN == 1 && c14.backoffFn != nil, "C14.relogin.loop-started")
+	attempt := c14.backoffFn
+	fails := zzverif.Choice("failedAttempts", 3)
+	reloadAt := zzverif.Choice("reloadBeforeAttempt", 4) // 3 = no reload
+	want := "a"
+	c14.script, c14.scriptPos, c14.nextRunID = nil, 0, "rid"
+	for i := 0; i < fails; i++ {
+		c14.script = append(c14.script, 2)
+	}
+	c14.script = append(c14.script, 0)
+	for i := 0; i <= fails; i++ {
+		if reloadAt == i {
+			zzverif.Assert(svr.UpdateAllConfigurer([]v1.ProxyConfigurer{mk("b")}, nil) == nil, "C14.relogin.reload-accepted")
+			want = "b"
+			zzverif.Reach("C14.relogin.reloaded-during-outage")
+		}
+		done, err := attempt()
+		if i < fails {
+			zzverif.Assert(!done && err != nil, "C14.relogin.failed-attempt-is-retried")
+		} else {
+			zzverif.Assert(done && err == nil && svr.ctl != nil, "C14.relogin.session-established")
+		}
+	}
+	c14.script = nil
+	if svr.ctl == nil {
+		return
+	}
+	st := svr.ctl.pm.GetAllProxyStatus()
+	zzverif.Assert(len(st) == 1 && st[0].Name == want, "C14.relogin.registers-the-configuration-current-at-login")
+	zzverif.Reach("C14.relogin.done")
+}
